@@ -214,6 +214,22 @@ def handle (op : String) (args : List String) (impl : Impl) : Option Ans :=
     let want : Int := if va < vb then -1 else if va > vb then 1 else 0
     pure { model := "ok " ++ toString (Dur.cmp a b), spec := judgeInt impl want,
            branch := "cmp:" ++ (if va == vb then "same" else if a.c == b.c then "same_c" else "diff_c") }
+  | "ordfns", [a, b, c] => do
+    -- C03 through the std entry points of the order (Ord::min / max, core::cmp::min / max, clamp, Iterator::min / max):
+    -- spec only, by the signed counts
+    let a ← parseDur? a; let b ← parseDur? b; let c ← parseDur? c
+    let va := sval a; let vb := sval b; let vc := sval c
+    let mn (x y : Int) : Int := if x < y then x else y
+    let mx (x y : Int) : Int := if x > y then x else y
+    let lo := mn vb vc; let hi := mx vb vc
+    let want : List Int := [mn va vb, mx va vb, mn va vb, mx va vb, (if va < lo then lo else if va > hi then hi else va),
+                            mn va (mn vb vc), mx va (mx vb vc)]
+    let sp := match impl with
+      | .ok rs => (match rs.mapM parseDur? with
+          | some ds => verdict [("ordered_by_signed_count", ds.map sval == want), ("canonical", ds.all scanon)]
+          | none => "FAIL:decode")
+      | .other w => "FAIL:" ++ w
+    pure { model := "-", spec := sp, branch := "ordfns:" ++ (if va == vb then "same" else if va < vb then "lt" else "gt") }
   | "min", [a, b] | "max", [a, b] => do
     let a ← parseDur? a; let b ← parseDur? b
     let va := sval a; let vb := sval b
